@@ -17,7 +17,7 @@ def nontrivial(c, mobs):
 
 def tie(rep, tier, rng, model_ok):
     q = tier == "quick"
-    chanprops.run(rep, tier)
+    chanprops.run(rep, tier, rng)
     crw = c14.gen_crw(rng, 1500 if q else 30000)
     opseq.check(rep, "connection-list", crw, vlib.ATOMH, ["seq"], c14.crw_ref, lambda l: l.count("w,") >= 1 and l.count("c,") >= 1, model_ok, 1,
                 rule="connection lists of port clones: op sequences (clone / connect / send over up to 5 clones) on the verbatim cached_rw_lock.rs vs CachedRw.v")
